@@ -26,12 +26,13 @@ func init() {
 	ruleText["R01.5"] = "same analysis as C02/R02.2: the run-time closures of every operator generator use exactly the Go operator of their action"
 	ruleText["R01.7"] = "every closure of the return generator that sets several results and can be installed when the function has named results and the return has several operands evaluates all operand generators before its first store into frame.data (no operand evaluation reachable from a result store in the closure's flow graph)"
 	ruleText["R01.8"] = "in every run-time closure of a generator func(n *node) that stores into dest(f) (dest obtained from a gen* value generator applied to n itself), no return of a non-nil successor is reachable from the closure entry without passing such a store"
-	ruleText["R01.9"] = "in the range generator, each 'if isString(operand type) {...} else {...}' installs in its string arm a run-time closure that calls reflect.Value.Convert (byte length of the prefix): the key-value and key-only forms agree"
+	ruleText["R01.9"] = "in the range generator, each 'if isString(operand type) {...} else {...}' installs in its string arm a run-time closure that calls utf8.DecodeRuneInString: keys are the byte positions of the runes decoded from the string itself (key-value and key-only forms alike)"
 	ruleText["R01.10"] = "in the range generator every store through the frame index of the value child (n.child[1].findex) is inside an if whose condition derives from n.child[1].ident != \"_\""
 	ruleText["R01.11"] = "in cfg, the condition guarding the statement that turns a define into a no-op because it redeclares the for/range loop variable mentions the source operand (src.ident / src.kind)"
 	ruleText["R01.12"] = "in every run-time closure of a generator func(n *node) that has both successors, an if whose condition is a plain boolean read (x.Bool(), a bool variable, conjunctions, negation) returns tnext when the value is true and fnext when it is false, and a SetBool(literal) directly followed by a return agrees with the successor returned"
 	ruleText["R01.13"] = "same analysis as C08/R08.1: no run-time closure writes to a variable captured from its generator (recursion and re-entrancy execute the same closure in several activations)"
 	ruleText["R01.15"] = "in the generator of calls, every vararg.Set(v) storing a whole operand (v not built by reflect.Append) into the variadic vector of the callee's frame lies under a condition on the ellipsis flag (n.action == aCallSlice)"
+	ruleText["R01.16"] = "in cfg no parallel assignment exchanges two elements of a []*node (the default clause is moved last without displacing another clause), and no assignment of a successor under a test of fallthroughtStmt takes its target by position (X[i+1]) in the clause list"
 	ruleText["R01.14"] = "in the assignment case of cfg, every statement n.gen = nop (the loop-variable idiom excepted) lies under a condition that is false for n.nleft > 1 / len(n.child) >= 4: the assign operation is skipped for single assignments only"
 	ruleText["R01.6"] = "in the multiple-assignment closures of the assignment generator, no loop both evaluates a source generator and writes a destination, and the temporaries receive fresh copies (reflect.New(T).Elem() + Set), never the aliasing result of a source generator"
 }
@@ -70,6 +71,7 @@ func runC01(c *Config, r *Report) {
 	c01R12(ic, r)
 	c01R14(ic, r, "R01.14")
 	c07R14(ic, r, "R01.15")
+	c01R16(ic, r)
 	// R01.13: run-time closures keep no mutable per-statement state (same analysis as
 	// C08/R08.1): a statement executed recursively or re-entered through a callback shares
 	// whatever its closure wrote into a captured generator variable.
